@@ -101,7 +101,7 @@ type StepB struct {
 	Kind    string `json:"kind"` // copy | close | pause
 	Copy    int    `json:"copy,omitempty"`
 	PauseUs int    `json:"pause_us,omitempty"`
-	Ctx     int    `json:"ctx,omitempty"` // close: context state (see Op.Ctx)
+	Ctx     int    `json:"ctx,omitempty"`    // close: context state (see Op.Ctx)
 	Layout  int    `json:"layout,omitempty"` // close: 0 the main layout, 1 the second (referrer target) layout
 }
 
@@ -129,10 +129,10 @@ type CaseB struct {
 	Workers    [][]StepB     `json:"workers"`
 	CloseEvery int           `json:"close_every"` // Close(target) from inside every k-th source request (0 = off)
 	CloseAt    []int         `json:"close_at,omitempty"`
-	PathForm   int           `json:"path_form,omitempty"` // see CaseA.PathForm
-	Pre2       string        `json:"pre2,omitempty"`      // pre-state of the second layout: absent | empty | graph
+	PathForm   int           `json:"path_form,omitempty"`  // see CaseA.PathForm
+	Pre2       string        `json:"pre2,omitempty"`       // pre-state of the second layout: absent | empty | graph
 	CloseBoth  bool          `json:"close_both,omitempty"` // closes issued from inside copies also close the second layout
-	CloseCtx   []int         `json:"close_ctx,omitempty"` // context states of the closes issued from inside copies (cyclic; empty = live)
+	CloseCtx   []int         `json:"close_ctx,omitempty"`  // context states of the closes issued from inside copies (cyclic; empty = live)
 	Delays     []int         `json:"delays,omitempty"`
 	Procs      int           `json:"procs"`
 }
